@@ -57,10 +57,8 @@ func (s *SignedLatency) OnPing(pingReqID uint32) error {
 	}
 
 	s.Iteration--
-	s.PingRequests[pingReqID] = LatencyMetricsData{
-		Start: pingRequest.Start,
-		End:   time.Now(),
-	}
+	pingRequest.End = time.Now()
+	s.PingRequests[pingReqID] = pingRequest
 
 	if s.Iteration > 0 {
 		// Send new ping request
@@ -84,7 +82,7 @@ func (s *SignedLatency) OnPing(pingReqID uint32) error {
 		mean += latency
 	}
 	mean = float32(math.Round(float64(mean) / float64(len(s.PingRequests))))
-	last = latencies[len(latencies)-1]
+	last = float32(pingRequest.End.Sub(pingRequest.Start).Microseconds())
 
 	sort.Slice(latencies, func(i, j int) bool {
 		return latencies[i] < latencies[j]
